@@ -129,6 +129,10 @@ fn check<P: Property>(tier: Tier, o: &Opts) -> i32 {
     let mut new_violations = 0;
     let mut known_hits = 0;
     let mut reported = Vec::new();
+    if let Some(f) = agg.found.iter().find(|f| f.violation.clause == "harness_panic") {
+        let path = write_replay::<P>(&f.scenario, &f.violation, o.seed, f.index, 0);
+        harness_error(&format!("{} (run {}, scenario saved to {path})", f.violation.detail, f.index));
+    }
     for f in agg.found.iter().take(6) {
         let m = minimise(&f.scenario, &f.violation, 2000);
         let mut v = m.violation.clone();
